@@ -208,6 +208,12 @@ func extraObligations(prog *Program, prop, tier string) []*lemmaQuery {
 		// every property about stored client data depends on columns storing exactly what is written
 		out0 = schemaLemmas(prog)
 	}
+	if prop == "C17" {
+		// the Postgres search statements have the shape the paging argument needs (same obligations as C14)
+		pkg := repoModule + "/internal/app/subsystems/aio/store/postgres"
+		out0 = append(out0, searchShape(prog, pkg, "PROMISE_SEARCH_STATEMENT", true)...)
+		out0 = append(out0, searchShape(prog, pkg, "SCHEDULE_SEARCH_STATEMENT", false)...)
+	}
 	if prop == "C16" || prop == "C17" || prop == "C20" || prop == "C01" || prop == "C02" || prop == "C03" || prop == "C04" || prop == "C07" || prop == "C08" || prop == "C09" || prop == "C10" {
 		return out0
 	}
